@@ -340,6 +340,10 @@ class Check:
             os.remove(p)
         cmd = [os.path.join(BIN, "vh"), sub, "-tier", self.tier, "-seed", str(self.seed), "-out", out_dir] + (extra_args or [])
         rc, out = sh(cmd, cwd=REPO, env=go_env(), timeout=timeout)
+        if rc in (-9, 137):
+            # SIGKILL from outside (the kernel's OOM killer when sibling jobs fill the machine): not an observation; once more
+            time.sleep(20)
+            rc, out = sh(cmd, cwd=REPO, env=go_env(), timeout=timeout)
         mp = os.path.join(out_dir, "meta.json")
         if rc != 0 or not os.path.exists(mp):
             self.infra_fail("harness %s failed (rc=%s)" % (sub, rc), out)
